@@ -1,4 +1,5 @@
-\* C06 small-scope exhaustive instance (BFS): every program with <= MaxStmts statements and <= MaxToks expression nodes
+\* C06 small-scope exhaustive instance (BFS): every program with <= 3 statements and <= 6 expression nodes
+\* over atoms a, b, 1, operators - * sub2(), comparisons > ==, one local y (quick tier; base of the teeth runs)
 CHECK_DEADLOCK FALSE
 INIT Init
 NEXT Next
@@ -14,13 +15,15 @@ CONSTANTS
     BoolOn = {}
     IteOn = FALSE
     CallOn = {"sub2"}
-    MaxToks = 8
+    AugOn = {}
+    LoopOn = FALSE
+    MaxToks = 6
     MinStmts = 1
-    MaxStmts = 4
+    MaxStmts = 3
     MaxDepth = 1
     MaxNest = 1
     Sim = TRUE
     EqOk = TRUE
     CheckPW = TRUE
     EmitOn = TRUE
-INVARIANTS Emit PWTheorem LibTheorem WellFormedAlways
+INVARIANTS EmitLib PWTheorem LibTheorem WellFormedAlways
